@@ -70,7 +70,8 @@ CONSTANTS
   WV,              \* verifier pool size
   Lag,             \* catch-up iff highest > stored + Lag   (maxWorkers() in the code)
   MaxFaults,       \* budget of injected errors / corrupt blocks / stale heads
-  MaxPolls,        \* pollLatest iterations (one per minute in the code)
+  MaxPolls,        \* pollLatest iterations (one per minute in the code), per incarnation of the node
+  MaxRestarts,     \* the node is stopped (context cancelled) and started again on the same database
   FixH13,
   FixRevertVerify,
   FixUnderflow,
@@ -82,13 +83,15 @@ VARIABLES
   cancelled, nextFetch, weff, fq, vq, rv, sp,              \* stream generation, queues, revert task, store in progress
   highest, catchUp, poll, polls,                           \* highestBlockHeader, catchUpMode, pollLatest
   curr,                                                    \* currReorg
-  revSince, seenVers                                       \* history: reverted since last store; versions heard from
+  revSince, seenVers,                                      \* history: reverted since last store; versions heard from
+  stopping, restarts                                       \* the Synchronizer's context is cancelled; restarts so far
 
 srcVars  == <<versions, nextTag, srcSteps, nReorgs>>
 pipeVars == <<cancelled, nextFetch, weff, fq, vq, rv, sp>>
 modeVars == <<highest, catchUp, poll, polls>>
+lifeVars == <<stopping, restarts>>
 vars == <<versions, nextTag, srcSteps, nReorgs, faults, local, cancelled, nextFetch, weff, fq, vq, rv, sp,
-          highest, catchUp, poll, polls, curr, revSince, seenVers>>
+          highest, catchUp, poll, polls, curr, revSince, seenVers, stopping, restarts>>
 
 INF == 1000000                       \* uint64 underflow of "height - 1" / "height - 2"
 Prefix(c, n) == SubSeq(c, 1, n)
@@ -119,6 +122,7 @@ Init ==
   /\ cancelled = FALSE /\ nextFetch = 0 /\ weff = 1 /\ fq = <<>> /\ vq = <<>> /\ rv = NoRv /\ sp = NoSp
   /\ highest = -1 /\ catchUp = FALSE /\ poll = IdlePoll /\ polls = 0
   /\ curr = NoReorg /\ revSince = <<>> /\ seenVers = {}
+  /\ stopping = FALSE /\ restarts = 0
 
 -----------------------------------------------------------------------------
 (* Source *)
@@ -136,7 +140,7 @@ SrcSet(c) ==
   /\ nextTag' = HeadTag(c) + 1
   /\ srcSteps' = srcSteps + 1
   /\ nReorgs' = IF Len(c) > Len(Cur) /\ Prefix(c, Len(Cur)) = Cur THEN nReorgs ELSE nReorgs + 1
-  /\ UNCHANGED <<faults, local, pipeVars, modeVars, curr, revSince, seenVers>>
+  /\ UNCHANGED <<faults, local, pipeVars, modeVars, curr, revSince, seenVers, lifeVars>>
 
 Fresh(n) == [j \in 1..n |-> nextTag + j - 1]
 
@@ -215,22 +219,22 @@ Spawn ==
   /\ ~cancelled /\ Running(fq) < weff /\ Len(fq) < weff + 2
   /\ fq' = Append(fq, NewTask(nextFetch))
   /\ nextFetch' = nextFetch + 1
-  /\ UNCHANGED <<srcVars, faults, local, cancelled, weff, vq, rv, sp, modeVars, curr, revSince, seenVers>>
+  /\ UNCHANGED <<srcVars, lifeVars, faults, local, cancelled, weff, vq, rv, sp, modeVars, curr, revSince, seenVers>>
 
 FetchExit(i) ==                       \* top of the retry loop: ctx.Done
   /\ fq[i].st = "run" /\ cancelled
   /\ SetFq(i, [fq[i] EXCEPT !.st = "done", !.kind = "none"])
-  /\ UNCHANGED <<srcVars, faults, local, cancelled, nextFetch, weff, vq, rv, sp, modeVars, curr, revSince, seenVers>>
+  /\ UNCHANGED <<srcVars, lifeVars, faults, local, cancelled, nextFetch, weff, vq, rv, sp, modeVars, curr, revSince, seenVers>>
 
 FetchCheck(i) ==                      \* top of the retry loop: ctx not done (a reset may still slip in before the call)
   /\ fq[i].st = "run" /\ ~cancelled
   /\ SetFq(i, [fq[i] EXCEPT !.st = "go"])
-  /\ UNCHANGED <<srcVars, faults, local, cancelled, nextFetch, weff, vq, rv, sp, modeVars, curr, revSince, seenVers>>
+  /\ UNCHANGED <<srcVars, lifeVars, faults, local, cancelled, nextFetch, weff, vq, rv, sp, modeVars, curr, revSince, seenVers>>
 
 FetchCall(i, rid) ==                  \* observable: request BlockByNumber(h)
   /\ fq[i].st = "go"
   /\ SetFq(i, [fq[i] EXCEPT !.st = "wait", !.v0 = Len(versions), !.rid = rid])
-  /\ UNCHANGED <<srcVars, faults, local, cancelled, nextFetch, weff, vq, rv, sp, modeVars, curr, revSince, seenVers>>
+  /\ UNCHANGED <<srcVars, lifeVars, faults, local, cancelled, nextFetch, weff, vq, rv, sp, modeVars, curr, revSince, seenVers>>
 
 FetchReturn(i, resp) ==               \* observable: the answer is delivered
   /\ fq[i].st = "wait"
@@ -241,19 +245,19 @@ FetchReturn(i, resp) ==               \* observable: the answer is delivered
      THEN SetFq(i, [fq[i] EXCEPT !.st = "chk"])
      ELSE SetFq(i, [fq[i] EXCEPT !.st = "done", !.kind = "block", !.blk = resp.tag, !.bh = HeightOf(resp.tag),
                                  !.bad = (resp.r = "bad"), !.forged = (resp.r = "fg")])
-  /\ UNCHANGED <<srcVars, local, cancelled, nextFetch, weff, vq, rv, sp, modeVars, curr, revSince>>
+  /\ UNCHANGED <<srcVars, lifeVars, local, cancelled, nextFetch, weff, vq, rv, sp, modeVars, curr, revSince>>
 
 IsRevFast(i) ==                       \* exit 1 (also: Height() fails on an empty chain)
   /\ fq[i].st = "chk"
   /\ (Len(local) = 0 \/ Len(local) # fq[i].h)
   /\ SetFq(i, [fq[i] EXCEPT !.st = "run"])
-  /\ UNCHANGED <<srcVars, faults, local, cancelled, nextFetch, weff, vq, rv, sp, modeVars, curr, revSince, seenVers>>
+  /\ UNCHANGED <<srcVars, lifeVars, faults, local, cancelled, nextFetch, weff, vq, rv, sp, modeVars, curr, revSince, seenVers>>
 
 IsRevCall(i, rid) ==                  \* observable: request BlockHeaderLatest
   /\ fq[i].st = "chk"
   /\ Len(local) > 0 /\ Len(local) = fq[i].h
   /\ SetFq(i, [fq[i] EXCEPT !.st = "lwait", !.L = Len(local) - 1, !.v0 = Len(versions), !.rid = rid])
-  /\ UNCHANGED <<srcVars, faults, local, cancelled, nextFetch, weff, vq, rv, sp, modeVars, curr, revSince, seenVers>>
+  /\ UNCHANGED <<srcVars, lifeVars, faults, local, cancelled, nextFetch, weff, vq, rv, sp, modeVars, curr, revSince, seenVers>>
 
 IsRevReturn(i, resp) ==               \* observable: exits 2 and 3
   /\ fq[i].st = "lwait"
@@ -269,7 +273,7 @@ IsRevReturn(i, resp) ==               \* observable: exits 2 and 3
           ELSE SetFq(i, [fq[i] EXCEPT !.st = "done", !.kind = "revert",
                                        !.lv = IF resp.h = 0 THEN (IF FixUnderflow THEN 0 ELSE INF)
                                              ELSE resp.h - 1])
-  /\ UNCHANGED <<srcVars, local, cancelled, nextFetch, weff, vq, rv, sp, modeVars, curr, revSince>>
+  /\ UNCHANGED <<srcVars, lifeVars, local, cancelled, nextFetch, weff, vq, rv, sp, modeVars, curr, revSince>>
 
 \* fetch callbacks run in submission order; each submits a verifier task (blocks while the pool is full)
 FetchCallback ==
@@ -283,7 +287,7 @@ FetchCallback ==
              [] fq[1].kind = "revert" -> Append(vq, [kind |-> "revert", blk |-> 0, bad |-> FALSE, forged |-> FALSE,
                                                    h |-> fq[1].h, rid |-> 0, st |-> "done", lv |-> fq[1].lv])
              [] OTHER -> vq
-  /\ UNCHANGED <<srcVars, faults, local, cancelled, nextFetch, weff, rv, sp, modeVars, curr, revSince, seenVers>>
+  /\ UNCHANGED <<srcVars, lifeVars, faults, local, cancelled, nextFetch, weff, rv, sp, modeVars, curr, revSince, seenVers>>
 
 -----------------------------------------------------------------------------
 (* Verifiers; their callbacks (store / revert) run in submission order on one goroutine *)
@@ -291,7 +295,7 @@ FetchCallback ==
 VerifyDone(i) ==                      \* SanityCheckNewHeight finished (its verdict is ~bad)
   /\ vq[i].st = "run"
   /\ vq' = [vq EXCEPT ![i].st = "done"]
-  /\ UNCHANGED <<srcVars, faults, local, cancelled, nextFetch, weff, fq, rv, sp, modeVars, curr, revSince, seenVers>>
+  /\ UNCHANGED <<srcVars, lifeVars, faults, local, cancelled, nextFetch, weff, fq, rv, sp, modeVars, curr, revSince, seenVers>>
 
 CallbackReady == ~rv.on /\ ~sp.on /\ Len(vq) > 0 /\ vq[1].st = "done"
 StartRevert(lv, why) == rv' = [NoRv EXCEPT !.on = TRUE, !.lv = lv, !.st = "iter", !.why = why]
@@ -299,12 +303,12 @@ StartRevert(lv, why) == rv' = [NoRv EXCEPT !.on = TRUE, !.lv = lv, !.st = "iter"
 VerifyFail ==                         \* sanity check failed: resetStreams()
   /\ CallbackReady /\ vq[1].kind = "block" /\ vq[1].bad
   /\ vq' = Tail(vq) /\ cancelled' = TRUE
-  /\ UNCHANGED <<srcVars, faults, local, nextFetch, weff, fq, rv, sp, modeVars, curr, revSince, seenVers>>
+  /\ UNCHANGED <<srcVars, lifeVars, faults, local, nextFetch, weff, fq, rv, sp, modeVars, curr, revSince, seenVers>>
 
 StoreSkip ==                          \* storeTask sees ctx.Done
   /\ CallbackReady /\ vq[1].kind = "block" /\ ~vq[1].bad /\ cancelled
   /\ vq' = Tail(vq)
-  /\ UNCHANGED <<srcVars, faults, local, cancelled, nextFetch, weff, fq, rv, sp, modeVars, curr, revSince, seenVers>>
+  /\ UNCHANGED <<srcVars, lifeVars, faults, local, cancelled, nextFetch, weff, fq, rv, sp, modeVars, curr, revSince, seenVers>>
 
 StoreErr ==                           \* any error but ErrParentDoesNotMatchHead: "expected block #n" (a block of
                                       \* another height), or the state root a forged successor's diff produces
@@ -312,7 +316,7 @@ StoreErr ==                           \* any error but ErrParentDoesNotMatchHead
   /\ \/ vq[1].h # Len(local)
      \/ (vq[1].forged /\ ParentOf(vq[1].blk) = HeadTag(local))
   /\ vq' = Tail(vq) /\ cancelled' = TRUE
-  /\ UNCHANGED <<srcVars, faults, local, nextFetch, weff, fq, rv, sp, modeVars, curr, revSince, seenVers>>
+  /\ UNCHANGED <<srcVars, lifeVars, faults, local, nextFetch, weff, fq, rv, sp, modeVars, curr, revSince, seenVers>>
 
 StoreMismatch ==                      \* ErrParentDoesNotMatchHead -> revertTask(n-2)  [H13]
   /\ CallbackReady /\ vq[1].kind = "block" /\ ~vq[1].bad /\ ~cancelled
@@ -320,7 +324,7 @@ StoreMismatch ==                      \* ErrParentDoesNotMatchHead -> revertTask
   /\ vq' = Tail(vq)
   /\ LET n == vq[1].h IN
      StartRevert(IF FixH13 THEN n - 1 ELSE (IF n >= 2 THEN n - 2 ELSE INF), "parent")
-  /\ UNCHANGED <<srcVars, faults, local, cancelled, nextFetch, weff, fq, sp, modeVars, curr, revSince, seenVers>>
+  /\ UNCHANGED <<srcVars, lifeVars, faults, local, cancelled, nextFetch, weff, fq, sp, modeVars, curr, revSince, seenVers>>
 
 \* what storeTask does after the listener: catch-up mode switch (resets the streams), highest block,
 \* reorg notification (currReorg is cleared) and newHeads notification.  hs is the value of
@@ -343,24 +347,24 @@ StoreApply ==                         \* Blockchain.Store returned nil: the chai
      THEN /\ sp' = [on |-> TRUE, acked |-> FALSE, tag |-> vq[1].blk, h |-> vq[1].h, rid |-> vq[1].rid, hs |-> -1]
           /\ UNCHANGED <<cancelled, catchUp, highest, curr, revSince>>
      ELSE PostOps(vq[1].h, highest) /\ UNCHANGED sp
-  /\ UNCHANGED <<srcVars, faults, nextFetch, weff, fq, rv, poll, polls, seenVers>>
+  /\ UNCHANGED <<srcVars, lifeVars, faults, nextFetch, weff, fq, rv, poll, polls, seenVers>>
 
 StoreAck ==                           \* observable: Stored(b) (OnSyncStepDone(OpStore))
   /\ sp.on /\ ~sp.acked
   /\ sp' = [sp EXCEPT !.acked = TRUE, !.hs = highest]      \* highestBlockHeader.Load() follows the listener
-  /\ UNCHANGED <<srcVars, faults, local, cancelled, nextFetch, weff, fq, vq, rv, modeVars, curr, revSince, seenVers>>
+  /\ UNCHANGED <<srcVars, lifeVars, faults, local, cancelled, nextFetch, weff, fq, vq, rv, modeVars, curr, revSince, seenVers>>
 
 StorePost ==
   /\ sp.on /\ sp.acked
   /\ PostOps(sp.h, sp.hs)
   /\ sp' = NoSp
-  /\ UNCHANGED <<srcVars, faults, local, nextFetch, weff, fq, vq, rv, poll, polls, seenVers>>
+  /\ UNCHANGED <<srcVars, lifeVars, faults, local, nextFetch, weff, fq, vq, rv, poll, polls, seenVers>>
 
 RevertStart ==                        \* the callback built by fetcherTask after isReverting said "reorg"
   /\ CallbackReady /\ vq[1].kind = "revert"
   /\ vq' = Tail(vq)
   /\ StartRevert(vq[1].lv, "latest")
-  /\ UNCHANGED <<srcVars, faults, local, cancelled, nextFetch, weff, fq, sp, modeVars, curr, revSince, seenVers>>
+  /\ UNCHANGED <<srcVars, lifeVars, faults, local, cancelled, nextFetch, weff, fq, sp, modeVars, curr, revSince, seenVers>>
 
 \* revertHead(): RevertHead + currReorg bookkeeping
 RevertHeadOp ==
@@ -382,18 +386,18 @@ EndTask ==
 RevertBreak ==                        \* HeadsHeader fails on an empty chain
   /\ rv.on /\ rv.st = "iter" /\ Len(local) = 0
   /\ EndTask
-  /\ UNCHANGED <<srcVars, faults, local, nextFetch, weff, fq, vq, sp, modeVars, curr, revSince, seenVers>>
+  /\ UNCHANGED <<srcVars, lifeVars, faults, local, nextFetch, weff, fq, vq, sp, modeVars, curr, revSince, seenVers>>
 
 RevertUncond ==                       \* the head is above lastPossiblyValidHeight: RevertHead took effect
   /\ rv.on /\ rv.st = "iter" /\ Len(local) > 0 /\ Len(local) - 1 > rv.lv
   /\ RevertHeadOp
   /\ AfterRevert(TRUE, "uncond")
-  /\ UNCHANGED <<srcVars, faults, nextFetch, weff, fq, vq, sp, modeVars, seenVers>>
+  /\ UNCHANGED <<srcVars, lifeVars, faults, nextFetch, weff, fq, vq, sp, modeVars, seenVers>>
 
 RevertCall(rid) ==                    \* observable: request BlockByNumber(head.Number)
   /\ rv.on /\ rv.st = "iter" /\ Len(local) > 0 /\ Len(local) - 1 <= rv.lv
   /\ rv' = [rv EXCEPT !.st = "wait", !.v0 = Len(versions), !.rid = rid]
-  /\ UNCHANGED <<srcVars, faults, local, cancelled, nextFetch, weff, fq, vq, sp, modeVars, curr, revSince, seenVers>>
+  /\ UNCHANGED <<srcVars, lifeVars, faults, local, cancelled, nextFetch, weff, fq, vq, sp, modeVars, curr, revSince, seenVers>>
 
 RevertReturn(resp) ==                 \* observable: the answer; compare hashes
   /\ rv.on /\ rv.st = "wait"
@@ -412,56 +416,73 @@ RevertReturn(resp) ==                 \* observable: the answer; compare hashes
                      cont    == (resp.corr = "parent") \/ realCont
                  IN IF differs THEN rv' = [rv EXCEPT !.st = "rev", !.cont = cont] /\ UNCHANGED cancelled
                     ELSE EndTask
-  /\ UNCHANGED <<srcVars, local, nextFetch, weff, fq, vq, sp, modeVars, curr, revSince>>
+  /\ UNCHANGED <<srcVars, lifeVars, local, nextFetch, weff, fq, vq, sp, modeVars, curr, revSince>>
 
 RevertDo ==                           \* RevertHead took effect after a hash comparison
   /\ rv.on /\ rv.st = "rev"
   /\ RevertHeadOp
   /\ AfterRevert(rv.cont, "compare")
-  /\ UNCHANGED <<srcVars, faults, nextFetch, weff, fq, vq, sp, modeVars, seenVers>>
+  /\ UNCHANGED <<srcVars, lifeVars, faults, nextFetch, weff, fq, vq, sp, modeVars, seenVers>>
 
 RevertAck ==                          \* observable: Reverted(b) (OnReorg)
   /\ rv.on /\ rv.st = "ack"
   /\ rv' = [rv EXCEPT !.st = IF rv.cont THEN "iter" ELSE "fin"]
-  /\ UNCHANGED <<srcVars, faults, local, cancelled, nextFetch, weff, fq, vq, sp, modeVars, curr, revSince, seenVers>>
+  /\ UNCHANGED <<srcVars, lifeVars, faults, local, cancelled, nextFetch, weff, fq, vq, sp, modeVars, curr, revSince, seenVers>>
 
 RevertEnd ==                          \* defer resetStreams()
   /\ rv.on /\ rv.st = "fin"
   /\ rv' = NoRv /\ cancelled' = TRUE
-  /\ UNCHANGED <<srcVars, faults, local, nextFetch, weff, fq, vq, sp, modeVars, curr, revSince, seenVers>>
+  /\ UNCHANGED <<srcVars, lifeVars, faults, local, nextFetch, weff, fq, vq, sp, modeVars, curr, revSince, seenVers>>
 
 -----------------------------------------------------------------------------
 (* Stream reset and the latest-header poller *)
 
 Restart ==
-  /\ cancelled /\ fq = <<>> /\ vq = <<>> /\ ~rv.on /\ ~sp.on
+  /\ cancelled /\ ~stopping /\ fq = <<>> /\ vq = <<>> /\ ~rv.on /\ ~sp.on
   /\ cancelled' = FALSE /\ nextFetch' = Len(local)
   /\ weff' = IF catchUp THEN W ELSE 1
-  /\ UNCHANGED <<srcVars, faults, local, fq, vq, rv, sp, modeVars, curr, revSince, seenVers>>
+  /\ UNCHANGED <<srcVars, lifeVars, faults, local, fq, vq, rv, sp, modeVars, curr, revSince, seenVers>>
 
 PollCall(rid) ==                      \* observable: request BlockHeaderLatest (pollLatest)
-  /\ poll.st = "idle" /\ polls < MaxPolls
+  /\ poll.st = "idle" /\ polls < MaxPolls /\ ~stopping
   /\ poll' = [poll EXCEPT !.st = "wait", !.v0 = Len(versions), !.rid = rid]
-  /\ UNCHANGED <<srcVars, faults, local, pipeVars, highest, catchUp, polls, curr, revSince, seenVers>>
+  /\ UNCHANGED <<srcVars, lifeVars, faults, local, pipeVars, highest, catchUp, polls, curr, revSince, seenVers>>
 
 PollReturn(resp) ==                   \* observable
   /\ poll.st = "wait"
   /\ LegalLatestResp(poll.v0, resp)
-  /\ faults' = faults + LatestRespCost(resp, FALSE)
+  /\ faults' = faults + LatestRespCost(resp, stopping)
   /\ seenVers' = Heard(resp)
   /\ IF Fine
      THEN poll' = [poll EXCEPT !.st = "got", !.got = IF resp.r = "ok" THEN resp.h ELSE -1]
           /\ UNCHANGED <<highest, polls>>
      ELSE highest' = (IF resp.r = "ok" THEN resp.h ELSE highest) /\ poll' = IdlePoll /\ polls' = polls + 1
-  /\ UNCHANGED <<srcVars, local, pipeVars, catchUp, curr, revSince>>
+  /\ UNCHANGED <<srcVars, lifeVars, local, pipeVars, catchUp, curr, revSince>>
 
 PollApply ==                          \* highestBlockHeader.Store(header)
   /\ poll.st = "got"
   /\ highest' = IF poll.got >= 0 THEN poll.got ELSE highest
   /\ poll' = IdlePoll /\ polls' = polls + 1
-  /\ UNCHANGED <<srcVars, faults, local, pipeVars, catchUp, curr, revSince, seenVers>>
+  /\ UNCHANGED <<srcVars, lifeVars, faults, local, pipeVars, catchUp, curr, revSince, seenVers>>
 
 -----------------------------------------------------------------------------
+(* The node is stopped and started again: the Synchronizer's context is cancelled (which cancels the
+   stream context), Run returns once both streams have drained, and a NEW Synchronizer over a new
+   Blockchain object on the same database starts at height+1 in tip mode.  Everything it kept in
+   memory is gone: catch-up mode, highest header, and a reorg notification that was still pending. *)
+Shutdown ==                           \* observable (environment): Stop
+  /\ restarts < MaxRestarts /\ ~stopping
+  /\ stopping' = TRUE /\ cancelled' = TRUE
+  /\ UNCHANGED <<srcVars, restarts, faults, local, nextFetch, weff, fq, vq, rv, sp, modeVars, curr, revSince, seenVers>>
+
+NodeRestart ==                        \* observable (environment): Restart
+  /\ stopping /\ fq = <<>> /\ vq = <<>> /\ ~rv.on /\ ~sp.on /\ poll.st = "idle"
+  /\ stopping' = FALSE /\ restarts' = restarts + 1
+  /\ cancelled' = FALSE /\ nextFetch' = Len(local) /\ weff' = 1
+  /\ highest' = -1 /\ catchUp' = FALSE /\ polls' = 0
+  /\ curr' = NoReorg /\ revSince' = <<>>
+  /\ UNCHANGED <<srcVars, faults, local, fq, vq, rv, sp, poll, seenVers>>
+
 Budget(c) == faults + c <= MaxFaults
 
 \* "some legal answer within the fault budget is delivered"
@@ -478,7 +499,7 @@ RevertReturnAny ==
        Budget(BlockRespCost(rv.v0, Len(local) - 1, resp, cancelled)) /\ RevertReturn(resp)
 PollReturnAny ==
   /\ poll.st = "wait"
-  /\ \E resp \in LatestResps(poll.v0) : Budget(LatestRespCost(resp, FALSE)) /\ PollReturn(resp)
+  /\ \E resp \in LatestResps(poll.v0) : Budget(LatestRespCost(resp, stopping)) /\ PollReturn(resp)
 
 NodeInternal ==
   \/ Spawn
@@ -493,6 +514,7 @@ NodeInternal ==
 
 Next ==
   \/ SrcExtend \/ SrcReorg
+  \/ Shutdown \/ NodeRestart
   \/ NodeInternal
   \/ \E i \in 1..Len(fq) : FetchCall(i, 0) \/ FetchReturnAny(i) \/ IsRevCall(i, 0) \/ IsRevReturnAny(i)
   \/ StoreAck \/ RevertAck
@@ -545,6 +567,10 @@ ReorgExact ==
                 /\ \A k \in 1..(Len(revSince) - 1) : ParentOf(revSince[k]) = revSince[k + 1]
                 /\ ~sp.on => ParentOf(curr.s) = HeadTag(local)
 
+\* stopping and restarting the node does not touch the chain (and nothing else moves the head meanwhile
+\* except the stores / reverts the pipeline was already committed to)
+RestartIsNoOp == [][(stopping' # stopping) => local' = local]_vars
+
 Converged == local = Cur
 EventuallyConverges == <>[](local = Cur)
 
@@ -559,7 +585,7 @@ Fairness ==
   /\ WF_vars(RevertBreak) /\ WF_vars(RevertUncond) /\ WF_vars(RevertCall(0)) /\ WF_vars(RevertDo)
   /\ WF_vars(RevertAck) /\ WF_vars(RevertEnd) /\ WF_vars(PollApply)
   /\ WF_vars(RevertReturnAny)
-  /\ WF_vars(Restart)
+  /\ WF_vars(Restart) /\ WF_vars(NodeRestart)
   /\ WF_vars(PollCall(0)) /\ WF_vars(PollReturnAny)
   /\ \A i \in Slots :
        /\ WF_vars(i <= Len(fq) /\ FetchExit(i))
